@@ -163,6 +163,10 @@ class ImageTransformer(SpatialTransformer):
         self._sample = sampler.to(device)
         self._target_grid = target
         self._flip_coords = bool(flip_coords)
+        # whether sampling points are the regular grid points of the domain of the spatial transformation
+        self._same_domain = target.align_corners(transform.align_corners()).same_domain_as(
+            transform.grid()
+        )
         x = target.coords(align_corners=transform.align_corners(), flip=flip_coords, device=device)
         x = target.transform_points(x, axes=transform.axes(), to_grid=transform.grid())
         self.register_buffer("grid_coords", x.unsqueeze(0), persistent=False)
@@ -206,7 +210,7 @@ class ImageTransformer(SpatialTransformer):
     ) -> Union[Tensor, Tuple[Tensor, Tensor], Dict[str, Union[Tensor, Grid]]]:
         r"""Sample batch of images at spatially transformed target grid points."""
         grid: Tensor = self.grid_coords
-        grid = self._transform(grid, grid=True)
+        grid = self._transform(grid, grid=self._same_domain)
         if self._flip_coords:
             grid = grid.flip((-1,))
         return self._sample(grid, data, mask)
